@@ -65,7 +65,7 @@ func (fc *FuncC) allTags() map[string]bool {
 		}
 	}
 	for _, l := range fc.Loops {
-		for _, cl := range [][]Clause{l.Inv, l.Dec, l.Back, l.Iter, l.Exit} {
+		for _, cl := range [][]Clause{l.Inv, l.Dec, l.Back, l.Iter, l.Exit, l.Entry} {
 			for _, c := range cl {
 				add(c.Tags)
 			}
